@@ -23,12 +23,14 @@ func (f *Federation) OnSubscribedWrapper(pre server.OnSubscribed) server.OnSubsc
 	return func(ctx context.Context, client server.Client, subscription *gmqtt.Subscription) {
 		pre(ctx, client, subscription)
 		if subscription != nil {
+			// The reference counter and the event queues must change in one step: if another client's hook could run
+			// between them, the peers may see "unsubscribe" after "subscribe" for a topic that is still subscribed.
+			f.memberMu.Lock()
+			defer f.memberMu.Unlock()
 			if !f.localSubStore.subscribe(client.ClientOptions().ClientID, subscription.GetFullTopicName()) {
 				return
 			}
 			// only send new subscription
-			f.memberMu.Lock()
-			defer f.memberMu.Unlock()
 			for _, v := range f.peers {
 				sub := &Subscribe{
 					ShareName:   subscription.ShareName,
@@ -46,12 +48,12 @@ func (f *Federation) OnSubscribedWrapper(pre server.OnSubscribed) server.OnSubsc
 func (f *Federation) OnUnsubscribedWrapper(pre server.OnUnsubscribed) server.OnUnsubscribed {
 	return func(ctx context.Context, client server.Client, topicName string) {
 		pre(ctx, client, topicName)
+		f.memberMu.Lock()
+		defer f.memberMu.Unlock()
 		if !f.localSubStore.unsubscribe(client.ClientOptions().ClientID, topicName) {
 			return
 		}
 		// only unsubscribe topic if there is no local subscriber anymore.
-		f.memberMu.Lock()
-		defer f.memberMu.Unlock()
 		for _, v := range f.peers {
 			unsub := &Unsubscribe{
 				TopicName: topicName,
@@ -197,9 +199,9 @@ func (f *Federation) OnMsgArrivedWrapper(pre server.OnMsgArrived) server.OnMsgAr
 func (f *Federation) OnSessionTerminatedWrapper(pre server.OnSessionTerminated) server.OnSessionTerminated {
 	return func(ctx context.Context, clientID string, reason server.SessionTerminatedReason) {
 		pre(ctx, clientID, reason)
+		f.memberMu.Lock()
+		defer f.memberMu.Unlock()
 		if unsubs := f.localSubStore.unsubscribeAll(clientID); len(unsubs) != 0 {
-			f.memberMu.Lock()
-			defer f.memberMu.Unlock()
 			for _, v := range f.peers {
 				for _, topicName := range unsubs {
 					unsub := &Unsubscribe{
